@@ -111,8 +111,13 @@ pub fn now_us() -> u64 {
 }
 
 /// Append to the event log. Never draws from a PRNG, never reads a real clock.
+pub static TRACE: std::sync::atomic::AtomicBool = std::sync::atomic::AtomicBool::new(false);
+
 pub fn event(s: &str) {
     let t = now_us();
+    if TRACE.load(std::sync::atomic::Ordering::Relaxed) {
+        eprintln!("ev t={} {}", t, s);
+    }
     SIM.with(|st| {
         let mut st = st.borrow_mut();
         st.ev_count += 1;
